@@ -277,3 +277,60 @@ def flags(repo: Repo) -> List[Ob]:
     if n_calls < 15 or shared_sites < 15:
         raise AnalysisError(f"FLAGS: only {n_calls} action->action calls / {shared_sites} shared-flag sites found")
     return obs
+
+
+ENV_ACTIONS = ("apply_operation", "apply_kraus", "measure", "measure_POVM", "trace_out", "resize_fock")
+
+
+@rule("ROUTE-env")
+def route_env(repo: Repo) -> List[Ob]:
+    """an envelope hands a request to its composite envelope only when the state lives there: either the guard of the delegation
+    establishes that a member's index is a (product space, slot) tuple, or the composite entry point itself copes with subsystems
+    that are in none of its product spaces (a branch for `len(product_states) == 0` that does not reject).  Otherwise a combined
+    envelope that merely *belongs* to a composite cannot be operated on."""
+    obs: List[Ob] = []
+    n = 0
+    for A in ENV_ACTIONS:
+        fi = repo.func(f"Envelope.{A}")
+        props = ACTION_PROPS.get(A, ("C13",))
+        props = tuple(dict.fromkeys(tuple(props) + (("C10", "C01") if A == "trace_out" else ())))   # trace_out feeds resize guards and cutoffs
+        callee = repo.resolve_method("CompositeEnvelope", A)
+        k = 0
+        for i_ in [x for x in walk_no_nested(fi.node) if isinstance(x, ast.If)]:
+            calls = [c for b in i_.body for c in [b] + list(walk_no_nested(b)) if isinstance(c, ast.Call) and method_call(c) and method_call(c)[1] == A
+                     and "composite_envelope" in src(method_call(c)[0])]
+            if not calls:
+                continue
+            k += 1
+            n += 1
+            t = src(i_.test)
+            by_index = "tuple" in t and ".index" in t
+            copes = False
+            rejects = False
+            if callee is not None:
+                for x in walk_no_nested(callee.node):
+                    if isinstance(x, ast.Assert) and "product_states" in src(x.test) and ("> 0" in src(x.test) or ">= 1" in src(x.test)) and not _after_combine(callee.node, x):
+                        rejects = True
+                    if isinstance(x, ast.If) and "product_states" in src(x.test) and ("== 0" in src(x.test) or src(x.test).startswith("not ")):
+                        copes = not any(isinstance(y, (ast.Raise, ast.Assert)) for y in x.body)
+            key = f"delegation#{k}"
+            if by_index or (copes and not rejects):
+                obs.append(ok("ROUTE-env", fi, key, props, calls[0], "delegated only when the state lives in the composite" if by_index else "the composite entry point copes with subsystems outside its product spaces"))
+            else:
+                obs.append(bad("ROUTE-env", fi, key, props, calls[0],
+                               f"Envelope.{A} hands the request to the composite whenever the envelope *belongs* to one (`{t[:60]}`), but CompositeEnvelope.{A} rejects subsystems that are in none of "
+                               "its product spaces: a combined envelope inside a composite envelope cannot be served (the call fails with 'No product state found')"))
+    if n < 3:
+        raise AnalysisError(f"ROUTE-env: {n} envelope -> composite delegations (floor 3)")
+    return obs
+
+
+def _after_combine(fn: ast.AST, node: ast.AST) -> bool:
+    """the assertion sits after a self.combine(...) in the same block (it checks the result of combining, not the request)"""
+    for blk_owner in ast.walk(fn):
+        for fld in ("body", "orelse"):
+            blk = getattr(blk_owner, fld, None)
+            if isinstance(blk, list) and node in blk:
+                before = blk[:blk.index(node)]
+                return any(method_call(c) and method_call(c)[1] == "combine" for s in before for c in ast.walk(s) if isinstance(c, ast.Call))
+    return False
